@@ -9,6 +9,25 @@ import (
 // String casts the provided string into the provided type, returning the
 // result in a reflect.Value.
 func String(str string, t reflect.Type) (reflect.Value, error) {
+	val, err := stringToBuiltin(str, t)
+	if err != nil {
+		return val, err
+	}
+	// The parsers produce values of the builtin types (*uint8, []string,
+	// ...); convert to the (possibly user-defined) type that was asked for.
+	want := t
+	switch t.Kind() {
+	case reflect.Slice, reflect.Map:
+	default:
+		want = reflect.PtrTo(t)
+	}
+	if val.Type() != want && val.Type().ConvertibleTo(want) {
+		val = val.Convert(want)
+	}
+	return val, nil
+}
+
+func stringToBuiltin(str string, t reflect.Type) (reflect.Value, error) {
 	switch t.Kind() {
 	case reflect.String:
 		return reflect.ValueOf(&str), nil
